@@ -247,6 +247,19 @@ pub fn run_app(
             .unwrap_or_else(|| panic!("Failed to open stdout"));
         let cmd_stdout_buf = io::BufReader::new(cmd_stdout);
 
+        // Drain the child's stderr while its stdout is being processed: otherwise a child
+        // that writes more than a pipe buffer's worth to stderr blocks forever, and so does
+        // delta, which only looks at stderr after stdout has reached EOF.
+        let mut cmd_stderr = cmd
+            .stderr
+            .take()
+            .unwrap_or_else(|| panic!("Failed to open stderr"));
+        let stderr_reader = std::thread::spawn(move || {
+            let mut buf = Vec::new();
+            let _ = io::Read::read_to_end(&mut cmd_stderr, &mut buf);
+            buf
+        });
+
         let res = delta(cmd_stdout_buf.byte_lines(), &mut writer, &config);
 
         if let Err(error) = res {
@@ -271,11 +284,8 @@ pub fn run_app(
                 config.error_exit_code
             });
 
-        let mut stderr_lines = io::BufReader::new(
-            cmd.stderr
-                .unwrap_or_else(|| panic!("Failed to open stderr")),
-        )
-        .lines();
+        let stderr_bytes = stderr_reader.join().unwrap_or_default();
+        let mut stderr_lines = io::BufReader::new(&stderr_bytes[..]).lines();
         if let Some(line1) = stderr_lines.next() {
             // prefix the first error line with the called subcommand
             eprintln!(
